@@ -65,6 +65,16 @@ theorem memcpy_s_C07_overlap (dest dmax src slen : Nat) (st : St)
       (∀ a, st'.data a = if dest ≤ a ∧ a < dest + dmax then 0 else st.data a) :=
   memcpy_s_overlap dest dmax src slen st hd hs hpos hle hmax hw ha1 ha2 hov
 
+/-- **wmemmove_s** (`dlen`, `count` in `wchar_t` elements), valid arguments, any overlap: EOK and exact
+`memmove` semantics.  The hypothesis is `dlen * 4 ≤ RSIZE_MAX_WMEM`, not `dlen ≤ RSIZE_MAX_WMEM`: the code
+compares the BYTE size of dest with the ELEMENT limit (`CHK_DMAX_MEM_MAX("wmemmove_s", RSIZE_MAX_WMEM)`). -/
+theorem wmemmove_s_C07 (dest dlen src count : Nat) (st : St)
+    (hd : dest ≠ 0) (hs : src ≠ 0) (hpos : 0 < count) (hle : count ≤ dlen) (hmax : dlen * 4 ≤ RSIZE_MAX_WMEM)
+    (hw : RW st dest count) (hr : RD st src count) :
+    ∃ st', exec (wmemmove_s dest dlen src count none none) st = .ok (EOK, st') ∧
+      Moved st st' dest src count :=
+  wmemmove_s_ok dest dlen src count st hd hs hpos hle hmax hw hr
+
 /-- everything mapped, readable and writable; cell `a` holds `a % 251` -/
 def exSt : St := { data := fun a => a % 251, mapped := fun _ => true, rd := fun _ => true, wr := fun _ => true }
 
